@@ -232,7 +232,7 @@ class CallMixin:
     def call_repo(self, fi: FuncInfo, captured, self_node, pos, kw, st: St, fr: Frame, site,
                   closure_self=None) -> Node:
         if len(fr.chain) >= MAX_DEPTH or any(f is fi for (_s, f) in fr.chain[-12:] if f is not None) \
-                and sum(1 for (_s, f) in fr.chain if f is fi) >= 2:
+                and sum(1 for (_s, f) in fr.chain if f is fi) >= getattr(self, "recursion_limit", 2):
             self.effect("recursion-cut", site, st, fr, func=fi.qualname)
             return self.generic_call(self.func_node(fi), pos, kw, st, fr, site, "recursion")
         fnode = fi.node
@@ -252,7 +252,7 @@ class CallMixin:
                 fi.qualname in self.analyse_generators and not any(f is fi for (_s, f) in fr.chain)):
             recursive = any((isinstance(x, ast.Call) and isinstance(x.func, ast.Name) and x.func.id == fi.name) or
                             isinstance(x, ast.YieldFrom) for x in ast.walk(fnode))     # delegation: may recurse
-            if recursive or any(f is fi for (_s, f) in fr.chain):
+            if (recursive or any(f is fi for (_s, f) in fr.chain)) and not getattr(self, "collect_all_generators", False):
                 n = self.generic_call(self.func_node(fi), pos, kw, st, fr, site, "generator")
                 n.extra["generator"] = fi
                 return n
@@ -777,6 +777,20 @@ class CallMixin:
             self.effect("write", site, st, fr, node=recv_id, roots=self.roots(recv_id),
                         idx=None, value=pos[0], how="method:append", new=new)
             return self.const(None)
+        if recv.op == "List" and name == "pop" and len(pos) <= 1 and not kw and recv.args and \
+                not any(a.op == "Starred" for a in recv.args):
+            k = -1
+            if pos:
+                p0 = self.res(pos[0], st)
+                k = p0.attr if p0.op == "Const" and type(p0.attr) is int else None
+            if k is not None and -len(recv.args) <= k < len(recv.args):
+                items = list(recv.args)
+                out = items.pop(k)
+                new = self.mk("List", items, None, site)
+                st.cur[recv_id.id] = new
+                self.effect("write", site, st, fr, node=recv_id, roots=self.roots(recv_id),
+                            idx=None, value=None, how="method:pop", new=new)
+                return out
         if recv.op == "List" and name == "append" and len(pos) == 1:
             new = self.mk("List", recv.args + (pos[0],), None, site)
             st.cur[recv_id.id] = new
@@ -968,6 +982,25 @@ class CallMixin:
                 return self.mk("Enumerate", (P[0],), (start.attr if start is not None else 0) or None, site)
         if q == "builtins.range":
             return self.mk("Range", P, None, site)
+        if q == "builtins.iter" and len(P) == 1 and not kw:
+            items = self.known_items(P[0]) if P[0].op != "Const" else None
+            if items is not None:
+                # an iterator over a known sequence: an object with a position (consumed by for / next)
+                itn = self.mk("Iter", (P[0],), self.g.serial(), site)
+                itn.extra = {"items": list(items)}
+                st.heap[(itn.id, "$pos")] = self.const(0)
+                return itn
+        if q == "builtins.next" and len(P) in (1, 2) and not kw and P[0].op == "Iter":
+            posn = st.heap.get((P[0].id, "$pos"))
+            if posn is not None and posn.op == "Const":
+                items = P[0].extra["items"]
+                if posn.attr < len(items):
+                    st.heap[(P[0].id, "$pos")] = self.const(posn.attr + 1)
+                    return items[posn.attr]
+                if len(P) == 2:
+                    return P[1]
+                self.effect("raise", site, st, fr, node=P[0], text="StopIteration")
+                raise PathEnd()
         if q in ("builtins.any", "builtins.all") and len(P) == 1 and not kw:
             items = self.known_items(P[0]) if P[0].op != "Const" else None
             if items is not None:
@@ -1010,6 +1043,14 @@ class CallMixin:
             return self.mk("Dict", [kw[k] for k in kw], tuple(("k", k) for k in kw), site)
         if q == "builtins.dict" and len(P) == 1 and P[0].op == "Dict" and not kw:
             return self.mk("Dict", P[0].args, P[0].attr, site)
+        if q == "builtins.dict" and len(P) == 1 and not kw and P[0].op in ("List", "Tuple", "DictItems"):
+            pairs = self.known_items(P[0], limit=400)
+            if pairs is not None and all(p_.op in ("Tuple", "List") and len(p_.args) == 2 and
+                                         self.const_key(p_.args[0]) is not self.NOKEY for p_ in pairs):
+                d_ = self.mk("Dict", (), (), site)
+                for p_ in pairs:
+                    d_ = self.dict_set(d_, self.const_key(p_.args[0]), p_.args[1], site)
+                return d_
         if q in ("builtins.int", "builtins.float", "builtins.str", "builtins.bool") and len(P) == 1 \
                 and P[0].op == "Const" and not kw:
             try:
@@ -1149,7 +1190,13 @@ class CallMixin:
         BT = {"builtins.int": int, "builtins.float": float, "builtins.str": str,
               "builtins.bool": bool, "builtins.tuple": tuple, "builtins.list": list,
               "builtins.dict": dict, "builtins.bytes": bytes}
+        MAPS = ("collections.abc.MutableMapping", "typing.MutableMapping", "collections.abc.Mapping", "typing.Mapping",
+                "builtins.dict")
+        if v.op == "Input" and v.extra and v.extra.get("kind") in ("float", "int", "array", "str") and tq in MAPS:
+            return False            # a number / array / string is not a mapping
         if v.op == "Const":
+            if tq in MAPS:
+                return False
             if tq in BT:
                 return isinstance(v.attr, BT[tq])
             if tq in ("typing.Callable", "collections.abc.Callable"):
@@ -1165,7 +1212,7 @@ class CallMixin:
                 return BT[tq] is kind
             if tq in ("typing.Iterable", "collections.abc.Iterable"):
                 return True
-            if tq in ("collections.abc.MutableMapping", "typing.MutableMapping"):
+            if tq in MAPS:
                 return v.op == "Dict"
             if tq in ("typing.Callable", "collections.abc.Callable") or t.op == "Class":
                 return False
